@@ -194,6 +194,12 @@ class World:
                 shared = dict(cfg, readonly=True)
                 FilesystemStorageBackend(config=shared, read_only=False)
                 be = FilesystemStorageBackend(config=shared)
+            elif how == "create-after-writable":
+                # two backends built from configuration over the same directories: a writable one first (kept alive), then
+                # the read-only one the operations go through
+                from twosigma.memento.storage import StorageBackend
+                self._writable_twin = StorageBackend.create("filesystem", dict(cfg, type="filesystem", readonly=False))
+                be = StorageBackend.create("filesystem", dict(cfg, type="filesystem", readonly=True))
             elif how == "toggle":
                 be = FilesystemStorageBackend(**kw)
                 be.read_only = True
